@@ -10,6 +10,7 @@ import Kskm.Signer
 import KskmProofs.Lemmas.TokM
 import KskmProofs.Lemmas.HsmLoad
 import KskmProofs.Lemmas.HsmNoViol
+import KskmProofs.Lemmas.SignerInv
 import KskmProofs.C14
 import KskmProofs.C15
 namespace Kskm.C04
@@ -534,5 +535,76 @@ example : (loadPkcs11Key [C15.exMod] { exKsk with validFrom := 1001 } {} exBundl
     .error (.violation .keyUsage) ∧
     (loadPkcs11Key [C15.exMod] { exKsk with validUntil := some 4999 } {} exBundle true C15.exTok {}).1 =
     .error (.violation .keyUsage) := by decide +kernel
+
+
+/-! ## The window is a condition per bundle, end to end
+
+The theorems above speak of one load / one fetch for one bundle.  The property is about whole
+responses: *a KSK is published or used to sign a bundle only if that bundle lies inside the key's
+window*.  `sign_bundles` fetches every key named by slot `i + 1` afresh for request bundle `i`, so
+the per-fetch facts hold for every position — whatever was loaded for earlier bundles. -/
+
+theorem zip_mem_of_mem {α β : Type} : ∀ (l : List α) (m : List β), m.length = l.length →
+    ∀ a ∈ l, ∃ b, (a, b) ∈ l.zip m
+  | [], _, _, a, h => by simp at h
+  | x :: l, [], hlen, _, _ => by simp at hlen
+  | x :: l, y :: m, hlen, a, h => by
+    simp only [List.mem_cons] at h
+    rcases h with rfl | h
+    · exact ⟨y, by simp⟩
+    · obtain ⟨b, hb⟩ := zip_mem_of_mem l m (by simpa using hlen) a h
+      exact ⟨b, by simp [hb]⟩
+
+/-- **C04 for every bundle of a response.** If `sign_bundles` returns (any token, any state, any
+    number of bundles), then for every position `i` the schema has an action for slot `i + 1`, and
+    every name that action lists under publish, revoke or sign is a configured KSK whose window
+    contains request bundle `i` (inception not before valid-from, expiration not after valid-until
+    when set), that was loaded with the configured parameters and passed the identity check. -/
+theorem C04_every_bundle (ext : Externals) (mods : List P11Module) (cfg : SignerConfig) (req : Request)
+    (rbs : List Bundle) (tok : Token) (s s' : TokState)
+    (h : signBundles ext mods cfg req tok s = (.ok rbs, s')) :
+    ∀ i b, req.bundles[i]? = some b → ∃ act, cfg.actions.lookup (i + 1) = some act ∧
+      ∀ name, (name ∈ act.publish ∨ name ∈ act.revoke ∨ name ∈ act.sign) →
+        ∃ ksk ck isPublic, cfg.kskKeys.lookup name = some ksk ∧ InWindow ksk b ∧
+          LoadedAs mods ksk cfg.kskPolicy isPublic ck ∧ IdentityOk ext ksk ck := by
+  intro i b hib
+  unfold signBundles at h
+  obtain ⟨_, hpos⟩ := signBundlesFrom_ok h
+  obtain ⟨rb, sa, sb, _, hsb⟩ := hpos i b hib
+  rw [Nat.add_comm] at hsb
+  obtain ⟨act, pub, rev, revoked, signing, s1, s2, s3, hact, hpub, hrev, _, hsign, _⟩ := signBundle_ok hsb
+  refine ⟨act, hact, ?_⟩
+  intro name hname
+  have key : ∀ (isPublic : Bool) (names : List String) (cks : List CompositeKey) (t1 t2 : TokState),
+      fetchKeys ext mods cfg b isPublic names tok t1 = (.ok cks, t2) → name ∈ names →
+      ∃ ksk ck isPublic, cfg.kskKeys.lookup name = some ksk ∧ InWindow ksk b ∧
+        LoadedAs mods ksk cfg.kskPolicy isPublic ck ∧ IdentityOk ext ksk ck := by
+    intro isPublic names cks t1 t2 hf hn
+    obtain ⟨hlen, hall⟩ := fetched_implies_identity ext mods cfg b isPublic tok names t1 t2 cks hf
+    obtain ⟨ck, hck⟩ := zip_mem_of_mem names cks hlen name hn
+    obtain ⟨ksk, h1, h2, h3, h4⟩ := hall (name, ck) hck
+    exact ⟨ksk, ck, isPublic, h1, h2, h3, h4⟩
+  rcases hname with hn | hn | hn
+  · exact key true _ _ _ _ hpub hn
+  · exact key true _ _ _ _ hrev hn
+  · exact key false _ _ _ _ hsign hn
+
+/-- … and when a listed key is outside the window of ANY bundle it is used in, there is no response
+    at all (contrapositive, stated for the reader). -/
+theorem C04_outside_any_bundle_no_response (ext : Externals) (mods : List P11Module) (cfg : SignerConfig)
+    (req : Request) (tok : Token) (s : TokState) (i : Nat) (b : Bundle) (act : SchemaAction) (name : String)
+    (ksk : KskKey) (hib : req.bundles[i]? = some b) (hact : cfg.actions.lookup (i + 1) = some act)
+    (hname : name ∈ act.publish ∨ name ∈ act.revoke ∨ name ∈ act.sign)
+    (hk : cfg.kskKeys.lookup name = some ksk) (hout : ¬ InWindow ksk b) :
+    ∀ rbs s', signBundles ext mods cfg req tok s ≠ (.ok rbs, s') := by
+  intro rbs s' h
+  obtain ⟨act', hact', hall⟩ := C04_every_bundle ext mods cfg req rbs tok s s' h i b hib
+  rw [hact] at hact'
+  cases hact'
+  obtain ⟨ksk', _, _, hk', hw, _⟩ := hall name hname
+  rw [hk] at hk'
+  cases hk'
+  exact hout hw
+
 
 end Kskm.C04
